@@ -408,7 +408,24 @@ func genCoord(t *rapid.T, lim float64, label string) float32 {
 
 func genHav(t *rapid.T) HavCase {
 	c := HavCase{Lat1: genCoord(t, 90, "lat1"), Lon1: genCoord(t, 180, "lon1")}
-	switch rapid.IntRange(0, 3).Draw(t, "pair") {
+	switch rapid.IntRange(0, 4).Draw(t, "pair") {
+	case 4:
+		// latitudes beyond a pole (nothing restricts a latitude to [-90, 90]; the formula is defined for
+		// every angle): the same place written through the pole, or any two such places
+		c.Lat1 = float32(rapid.Float64Range(90, 270).Draw(t, "beyond")) * float32(rapid.SampledFrom([]float64{1, -1}).Draw(t, "beyondSign"))
+		if rapid.Bool().Draw(t, "samePlace") {
+			if c.Lat1 > 0 {
+				c.Lat2 = 180 - c.Lat1
+			} else {
+				c.Lat2 = -180 - c.Lat1
+			}
+			c.Lon2 = c.Lon1 + 180
+			if c.Lon2 > 180 {
+				c.Lon2 -= 360
+			}
+		} else {
+			c.Lat2, c.Lon2 = genCoord(t, 360, "lat2"), genCoord(t, 180, "lon2")
+		}
 	case 0: // antipodal or nearly so
 		c.Lat2 = -c.Lat1
 		c.Lon2 = c.Lon1 + 180
